@@ -107,6 +107,9 @@ func (t *Target) handle(w http.ResponseWriter, r *http.Request) {
 		hdr = false
 	case strings.HasPrefix(act, "s"):
 		fmt.Sscanf(act[1:], "%d", &status)
+	case strings.HasPrefix(act, "r"):
+		fmt.Sscanf(act[1:], "%d", &status)
+		w.Header().Set("Location", "/q9999?a=redirected")
 	}
 	if hdr {
 		w.Header().Set("X-Tok", fmt.Sprintf("h%d", k))
